@@ -148,3 +148,75 @@ package couchbase
 //@ ensures.parsed_as_reported[C18] result1 == nil ==> dcalls("couchbase.nodeVersionFromString") == 1 && darg("couchbase.nodeVersionFromString", 0, version) == reported && result0 == dret("couchbase.nodeVersionFromString", 0, 0) && dret("couchbase.nodeVersionFromString", 0, 1) == nil
 //@ ensures.errors_surface[C18] dret("couchbase.(*httpClient).doRequest", 0, 0) != nil ==> result1 != nil && result0 == nil
 //@ modifies anything
+
+// ---------- rollback mitigation: what is recorded and announced for a copy's report (C07) ----------
+
+// One report of one copy of one vBucket. A report for the current observation round whose content differs from
+// what is known is recorded for exactly that copy, and the minimum over all copies is announced exactly once;
+// anything else (stale round, closed, unchanged content, reporting error) records and announces nothing.
+//@ func (*rollbackMitigation).observe$1
+//@ params result err
+//@ freevars wg r groupID vbID replica vbUUID
+//@ props C07
+//@ requires r != nil && r.persistedSeqNos != nil && r.vbUUIDMap != nil && wg != nil && logger.Log != nil
+//@ requires forall j int :: 0 <= j && j < len(r.persistedSeqNos[vbID]) ==> r.persistedSeqNos[vbID][j] != nil
+//@ requires forall j int, k int :: 0 <= j && j < k && k < len(r.persistedSeqNos[vbID]) ==> r.persistedSeqNos[vbID][j] != r.persistedSeqNos[vbID][k]
+//@ requires err == nil ==> result != nil
+//@ let reps = old(ite(has(r.persistedSeqNos, vbID), r.persistedSeqNos[vbID], nil))
+//@ let live = old(!r.closed && r.activeGroupID == groupID)
+//@ let known = 0 <= replica && replica < len(reps)
+//@ let news = live && err == nil && known && old(!reps[replica].absent && (reps[replica].vbUUID != result.VbUUID || reps[replica].seqNo != result.PersistSeqNo))
+//@ ensures.recorded_for_the_reporting_copy[C07] news ==> reps[replica].seqNo == result.PersistSeqNo && reps[replica].vbUUID == result.VbUUID
+//@ ensures.other_copies_untouched[C07] forall j int :: 0 <= j && j < len(reps) && (j != replica || !news) ==> reps[j].seqNo == old(reps[j].seqNo) && reps[j].vbUUID == old(reps[j].vbUUID) && reps[j].absent == old(reps[j].absent)
+//@ ensures.announced_once_with_the_minimum[C07] news ==> calls("field:couchbase.rollbackMitigation.persistSeqNoDispatcher") == 1 && dcalls("couchbase.(*rollbackMitigation).getMinSeqNo") == 1 && darg("couchbase.(*rollbackMitigation).getMinSeqNo", 0, vbID) == vbID && arg("field:couchbase.rollbackMitigation.persistSeqNoDispatcher", 0, persistSeqNo).VbID == vbID && arg("field:couchbase.rollbackMitigation.persistSeqNoDispatcher", 0, persistSeqNo).SeqNo == dret("couchbase.(*rollbackMitigation).getMinSeqNo", 0, 0)
+//@ ensures.nothing_new_nothing_announced[C07] !news ==> calls("field:couchbase.rollbackMitigation.persistSeqNoDispatcher") == 0
+//@ modifies anything
+
+// A new cluster configuration starts every assigned vBucket with one entry per copy (active + every replica),
+// all present, nothing persisted yet - so the minimum is taken over every copy and is zero until each reported.
+//@ extern gocbcore.(ConfigSnapshot).NumReplicas
+//@ modifies nothing
+
+//@ func (*rollbackMitigation).reset
+//@ params r
+//@ props C07
+//@ requires r != nil && r.configSnapshot != nil && r.observeCount != nil && logger.Log != nil
+//@ let copies = dret("gocbcore.(ConfigSnapshot).NumReplicas", 0, 0) + 1
+//@ loop 1
+//@   invariant.range 0 <= rangeindex + 1 && rangeindex + 1 <= len(r.vbIds)
+//@   invariant.every_copy forall i int :: 0 <= i && i <= rangeindex ==> has(r.persistedSeqNos, r.vbIds[i]) && len(r.persistedSeqNos[r.vbIds[i]]) == replicas + 1 && forall j int :: 0 <= j && j <= replicas ==> r.persistedSeqNos[r.vbIds[i]][j] != nil && !r.persistedSeqNos[r.vbIds[i]][j].absent && r.persistedSeqNos[r.vbIds[i]][j].seqNo == 0
+//@   modifies content(r.persistedSeqNos), newobjs(couchbase.vbUUIDAndSeqNo)
+//@ loop 2
+//@   invariant.range 0 <= j && j <= replicas + 1
+//@   invariant.filled forall k int :: 0 <= k && k < j ==> replicaArr[k] != nil && fresh(replicaArr[k]) && !replicaArr[k].absent && replicaArr[k].seqNo == 0 && replicaArr[k].vbUUID == 0
+//@   modifies elems(replicaArr), newobjs(couchbase.vbUUIDAndSeqNo)
+//@ onpanic.no_replica_count[C07] dret("gocbcore.(ConfigSnapshot).NumReplicas", 0, 1) != nil
+//@ ensures.every_copy_of_every_vbucket[C07] fresh(r.persistedSeqNos) && forall i int :: 0 <= i && i < len(r.vbIds) ==> has(r.persistedSeqNos, r.vbIds[i]) && len(r.persistedSeqNos[r.vbIds[i]]) == copies && forall j int :: 0 <= j && j < copies ==> r.persistedSeqNos[r.vbIds[i]][j] != nil && !r.persistedSeqNos[r.vbIds[i]][j].absent && r.persistedSeqNos[r.vbIds[i]][j].seqNo == 0
+//@ modifies r.persistedSeqNos, atomic(r.observeCount), calls("gocbcore.(ConfigSnapshot).NumReplicas")
+
+// The question put to the server names the vBucket, the copy and the vbUUID it was asked for; a request that
+// cannot be sent is answered through the same callback, once.
+//@ func (*rollbackMitigation).observeVbID
+//@ params r vbID replica vbUUID callback
+//@ props C07 C20
+//@ requires r != nil && r.client != nil && logger.Log != nil
+//@ let opts = darg("gocbcore.(*Agent).ObserveVb", 0, opts)
+//@ ensures.asks_about_this_copy[C07] dcalls("gocbcore.(*Agent).ObserveVb") == 1 && opts.VbID == vbID && opts.ReplicaIdx == replica && opts.VbUUID == vbUUID && darg("gocbcore.(*Agent).ObserveVb", 0, cb) == callback
+//@ ensures.bounded[C20] timenonzero(opts.Deadline)
+//@ modifies anything
+
+// A copy is left out of the minimum only when the cluster map has no such replica or no server for it.
+//@ func (*rollbackMitigation).markAbsentInstances$1
+//@ params vbID replicas
+//@ freevars r outerError
+//@ props C07
+//@ requires r != nil && r.configSnapshot != nil && logger.Log != nil
+//@ requires forall j int :: 0 <= j && j < len(replicas) ==> replicas[j] != nil
+//@ loop 1
+//@   invariant.range -1 <= rangeindex && rangeindex < len(replicas)
+//@   invariant.never_revived forall j int :: 0 <= j && j < len(replicas) && old(replicas[j].absent) ==> replicas[j].absent
+//@   invariant.positions_kept forall j int :: 0 <= j && j < len(replicas) ==> replicas[j].seqNo == old(replicas[j].seqNo) && replicas[j].vbUUID == old(replicas[j].vbUUID)
+//@   modifies fieldof(couchbase.vbUUIDAndSeqNo, absent), calls("gocbcore.(ConfigSnapshot).VbucketToServer")
+//@ ensures.never_revived[C07] forall j int :: 0 <= j && j < len(replicas) && old(replicas[j].absent) ==> replicas[j].absent
+//@ ensures.positions_kept[C07] forall j int :: 0 <= j && j < len(replicas) ==> replicas[j].seqNo == old(replicas[j].seqNo) && replicas[j].vbUUID == old(replicas[j].vbUUID)
+//@ modifies anything
